@@ -119,3 +119,76 @@ Proof.
   split; [exact D|]. intros E. apply D.
   destruct x_wf as (Wa & Wb & _). exact (proj1 (view_id_binds x_H x_H_inj x_ta x_tb x_oa x_ob Wa Wb eq_refl E)).
 Qed.
+
+(* ---------------------------------------------------------------- collision-freeness only on the preimages *)
+(* a hash that is NOT injective (it keeps the first 200 bytes) but is collision-free on the six strings hashed for the three
+   transactions above: the premises of the `_on` theorems are met by a function no global H_inj holds for *)
+Definition x_Ht (b : bytes) : bytes := firstn 200 b.
+Example x_Ht_collides : exists a b, a <> b /\ x_Ht a = x_Ht b.
+Proof. exists (repeat 0 200 ++ [1]), (repeat 0 200 ++ [2]). split; [vm_compute; discriminate | vm_compute; reflexivity]. Qed.
+
+Definition x_S (t : tx) (o : bytes) : Prop := (t = x_ta /\ o = x_oa) \/ (t = x_tb /\ o = x_ob) \/ (t = x_tc /\ o = x_oa).
+
+Lemma x_Ht_fix a : hashed x_Ht x_S a -> x_Ht a = a.
+Proof.
+  intros (t & o & [[-> ->]|[[-> ->]|[-> ->]]] & [->| ->]); vm_compute; reflexivity.
+Qed.
+Example x_Ht_inj_on : forall a b, hashed x_Ht x_S a -> hashed x_Ht x_S b -> x_Ht a = x_Ht b -> a = b.
+Proof. intros a b Ha Hb E. rewrite (x_Ht_fix a Ha), (x_Ht_fix b Hb) in E. exact E. Qed.
+
+Definition x_wa := view x_Ht x_ta x_oa.
+Definition x_wb := view x_Ht x_tb x_ob.
+Definition x_c1 := CM.mkB (CE.bid 1 1) CE.ex_g 10 [x_wa] [x_rc].
+Definition x_c2 := CM.mkB (CE.bid 2 1) (CE.bid 1 1) 20 [x_wb] [x_rc].
+Definition x_c2' := CM.mkB (CE.bid 2 2) (CE.bid 1 1) 20 [x_wb] [x_rc].
+Definition x_q1 := CE.step_or x_r0 x_c1 0 true.
+Definition x_q2 := CE.step_or x_q1 x_c2 0 true.
+Definition x_q3 := CE.step_or x_q2 x_c2' 1 false.
+
+Example x_history_on : CP.reachable CE.ex_g CE.ex_gp 7 (CI.accepted (c11_universe_on x_Ht x_S)) x_q3.
+Proof.
+  destruct x_wf as (Wa & Wb & _).
+  assert (Ua : c11_universe_on x_Ht x_S x_wa) by (exists x_ta, x_oa; unfold x_S; auto 10).
+  assert (Ub : c11_universe_on x_Ht x_S x_wb) by (exists x_tb, x_ob; unfold x_S; auto 10).
+  apply (CP.reach_add _ _ _ _ x_q2 x_c2' 1 false); [| vm_compute; repeat split | | vm_compute; reflexivity].
+  apply (CP.reach_add _ _ _ _ x_q1 x_c2 0 true); [| vm_compute; repeat split | | vm_compute; reflexivity].
+  apply (CP.reach_add _ _ _ _ x_r0 x_c1 0 true); [| vm_compute; repeat split | | vm_compute; reflexivity].
+  - apply CP.reach_init.
+  - split; [vm_compute; reflexivity|]. intros t [<-|[]]. exact Ua.
+  - split; [vm_compute; reflexivity|]. intros t [<-|[]]. exact Ub.
+  - split; [vm_compute; reflexivity|]. intros t [<-|[]]. exact Ub.
+Qed.
+
+Example x_chain_inv_on : forall h, CP.stored x_q3 h ->
+  (forall a1 t1 a2 t2, CP.anc x_q3 h a1 -> CP.anc x_q3 h a2 -> CI.tx_in x_q3 a1 t1 -> CI.tx_in x_q3 a2 t2 ->
+     CM.tx_id t1 = CM.tx_id t2 -> a1 = a2).
+Proof.
+  intros h Sh.
+  exact (proj1 (proj2 (accepted_chain_inv_c11_on x_Ht x_S x_Ht_inj_on CE.ex_g CE.ex_gp 7 CE.ex_g_num CE.ex_gp_num x_q3 x_history_on h Sh))).
+Qed.
+
+(* included_once_c11 on the instance: xb is included in both sibling blocks; seen from one head, two inclusions with xb's id
+   are in one block *)
+Example x_included_once : forall h a1 a2, CP.stored x_r3 h -> CP.anc x_r3 h a1 -> CP.anc x_r3 h a2 ->
+  CI.tx_in x_r3 a1 x_vb -> CI.tx_in x_r3 a2 x_vb -> a1 = a2.
+Proof.
+  intros h a1 a2 Sh A1 A2 I1 I2. destruct x_wf as (_ & Wb & _).
+  exact (proj1 (included_once_c11 x_H x_H_inj CE.ex_g CE.ex_gp 7 CE.ex_g_num CE.ex_gp_num x_r3 x_history h Sh
+                  a1 a2 x_tb x_ob x_tb x_ob A1 A2 Wb Wb eq_refl I1 I2 eq_refl)).
+Qed.
+Example x_included_twice_on_siblings : CI.tx_in x_r3 (CE.bid 2 1) x_vb /\ CI.tx_in x_r3 (CE.bid 2 2) x_vb.
+Proof. split; eexists; eexists; (split; [vm_compute; reflexivity | left; reflexivity]). Qed.
+
+(* view_id_extract with a hash that collides on everything: xa and xb get one id, their signed parts differ, and the theorem
+   exhibits the collision *)
+Definition x_H0 (_ : bytes) : bytes := [].
+Example x_extract_collision :
+  CM.tx_id (view x_H0 x_ta x_oa) = CM.tx_id (view x_H0 x_tb x_ob) /\
+  collision_in x_H0 (fun a => a = go_signing_tx x_ta \/ a = go_signing_tx x_tb \/
+                              a = go_tx_signing_hash x_H0 x_ta ++ x_oa \/ a = go_tx_signing_hash x_H0 x_tb ++ x_ob).
+Proof.
+  assert (E : CM.tx_id (view x_H0 x_ta x_oa) = CM.tx_id (view x_H0 x_tb x_ob)) by reflexivity.
+  split; [exact E|]. destruct x_wf as (Wa & Wb & _).
+  destruct (view_id_extract x_H0 x_ta x_tb x_oa x_ob Wa Wb eq_refl E) as [(Sp & _)|C]; [|exact C].
+  exfalso. exact (proj1 x_binding Sp).
+Qed.
